@@ -130,8 +130,10 @@ func zzC13Verify(s *zzC13Sess, thr, interval int) {
 		vAssert(s.closedAt == wantAt, "C13.closed-right-after-last-miss")
 		vReach("closed")
 	}
-	vAssert(zzC13Tickers == 1 && zzC13TickerStopped == 1, "C13.ticker-stopped-on-exit")
-	vAssert(int(zzC13TickerPeriod) == interval, "C13.ticker-period")
+	// (whatever tickers the loop created are stopped when it ends; that it uses exactly one is how it is written today,
+	// not part of the property)
+	vAssert(zzC13TickerStopped == zzC13Tickers, "C13.ticker-stopped-on-exit")
+	vAssert(zzC13Tickers == 0 || int(zzC13TickerPeriod) == interval, "C13.ticker-period")
 	vAssert(len(s.outcomes) == 0 || int(zzC13PingTimeout) == interval/2, "C13.ping-timeout-half-interval")
 	vAssert(zzC13PingCancels == len(s.outcomes), "C13.every-ping-context-released")
 	for _, c := range s.pingCtxs {
@@ -155,7 +157,7 @@ func zzC13CancelFirst() {
 		vAssert(s.closes == 0, "C13.cancelled-no-close")
 		vReach("exit-without-ping")
 	}
-	vAssert(zzC13TickerStopped == 1, "C13.ticker-stopped-on-exit")
+	vAssert(zzC13TickerStopped == zzC13Tickers, "C13.ticker-stopped-on-exit")
 	vReach("end")
 }
 
